@@ -148,7 +148,8 @@ def run_cases(ck, res, n_cases, n_interval):
                     break
             if len(goals) < n_interval and kname in ('U2', 'mixed', 'poly2') and order <= 2:
                 venv = {l: pts[l][0] for l in COLS}
-                goals.append(enga.interval_goal(tname, term, venv, {}, probes, gv[0], 10 + abs(gv[0])))
+                goals.append(enga.interval_goal(tname, term, venv, {}, probes, gv[0], 10 + abs(gv[0]),
+                                                gen=('Gen_C03', tname, 'term'), names=res[tname]['names']))
     # ---- (3) zero for independent operands / above the polynomial degree; network outputs; per-sample
     for ci in range(max(6, n_cases // 10)):
         n = r.randint(2, 6)
